@@ -641,7 +641,10 @@ class CallMixin:
     def call_class(self, st, f, pos, kw, star, starkw, node):
         cname = f.h
         if cname is None:
-            raise Unsupported("instantiation of a symbolic class")
+            # e.__class__(...) : a new instance of a symbolic class (exception classes only: allocate, no __init__ model)
+            r = self.alloc(st, None)
+            st.assume(clsof(r) == f.t)
+            return [Res(st, SV("inst", r, h="BaseException", x="sub"))]
         if cname in ("PClass",):
             raise Unsupported("PClass()")
         if cname in self.class_index:
